@@ -138,6 +138,13 @@ class MonWorld(World):
                 h.fail(it.ctx, h.oid(f"effect-{tok}-requires-token"), f"runs the {tok} without having claimed it (may run twice)", kind="token")
                 raise Escape()
             self.effects.append((tok, "call"))
+            # the action is user code: it may raise (the exception then unwinds through the method's own handlers, whose
+            # critical sections are checked like any other; the claimed token stays spent - the action did run)
+            if it.ctx.choose(2, f"the {tok} raises") == 1:
+                from .refine import fresh_exc
+
+                self.callback_exc = fresh_exc(it.ctx, f"{tok}_error")
+                raise PyExc(self.callback_exc)
             return None
         if o.kind == "scheduler" and method == "schedule":
             # the scheduler contract: runs the action once
@@ -485,6 +492,11 @@ class MonitorHarness:
         if w.depth != 0:
             self.fail(ctx, self.oid("lock-released"), "leaves the method holding the lock")
             return
+        by_callback = raised is not None and raised is getattr(w, "callback_exc", None)
+        if by_callback:
+            # an exception of the user's action may propagate to the caller of dispose(); everything else still holds
+            self.record(ctx, self.oid("the-user-action-raised/only-its-own-exception-leaves-the-method"), True, kind="exc")
+            raised = None
         if raised is not None:
             name = raised.cls.name if isinstance(raised, Obj) else "?"
             allowed = c.may_raise.get(mname, [])
